@@ -190,6 +190,7 @@ type Machine struct {
 	hidx          int
 	shared        *Shared
 	solverAcc     SolverStats
+	ufParent      map[*Term]*Term
 	lastViolation *Violation
 	endModel      map[string]string
 	freshSeq, sigSeq, keySeq, hashSeq, fmtOpaque int
@@ -241,6 +242,9 @@ func (m *Machine) decide(kind string, n int, feasible func(i int) bool) int {
 			}
 			d.tested = true
 		}
+		if m.dpos == len(m.stack)-1 && d.model != nil {
+			m.setModel(d.model)
+		}
 		m.dpos++
 		return d.chosen
 	}
@@ -252,13 +256,16 @@ func (m *Machine) decide(kind string, n int, feasible func(i int) bool) int {
 		panic(pathEnd{kind: "infeasible"})
 	}
 	m.stack = append(m.stack, decision{kind: kind, chosen: c, n: n, tested: true})
+	if feasible == nil {
+		m.stack[len(m.stack)-1].model = m.model // a pure choice adds no constraint: the model stays valid for every alternative
+	}
 	if feasible == nil && m.shared != nil {
 		for alt := n - 1; alt > c; alt-- {
 			if !m.shared.hungry() {
 				break
 			}
 			job := m.copyStack()
-			job[len(job)-1] = decision{kind: kind, chosen: alt, n: alt + 1, tested: true, forced: true}
+			job[len(job)-1] = decision{kind: kind, chosen: alt, n: alt + 1, tested: true, forced: true, model: m.model}
 			m.shared.push(Job{h: m.hidx, stack: job})
 			n = alt
 			m.stack[len(m.stack)-1].n = n
@@ -272,21 +279,15 @@ func (m *Machine) decide(kind string, n int, feasible func(i int) bool) int {
 func (m *Machine) backtrack() bool {
 	for len(m.stack) > m.base {
 		d := &m.stack[len(m.stack)-1]
-		if d.vals != nil || d.n < 0 {
-			// open-ended enumeration: try for one more value
-			if !d.forced {
-				d.chosen++
-				d.tested = false
-				return true
-			}
-		} else if d.chosen+1 < d.n && !d.forced {
+		if d.chosen+1 < d.n && !d.forced {
 			d.chosen++
 			if d.kind == "br" {
 				d.tested = d.altOK
 				d.model, d.altModel = d.altModel, nil
+			} else if d.kind == "conc" {
+				d.model = nil
 			} else {
 				d.tested = false
-				d.model = nil
 			}
 			return true
 		}
@@ -299,11 +300,123 @@ func (m *Machine) assertPC(t *Term) {
 	if t.IsTrue() {
 		return
 	}
-	m.pc = append(m.pc, t)
-	m.solver.Assert(t)
 	if m.model != nil && !m.evalBool(t) {
-		m.setModel(nil)
+		// re-establish a model of PC ∧ t (t's component only) before t joins the PC
+		r, model := m.query(t, true)
+		if r == Sat {
+			m.setModel(model)
+		} else {
+			if r == Unsat {
+				// callers establish feasibility first; reaching this means an over-approximated (unknown) prefix
+				m.addPC(t)
+				panic(pathEnd{kind: "infeasible"})
+			}
+			m.setModel(nil)
+			m.pcDoubt = true
+		}
 	}
+	m.addPC(t)
+}
+
+func (m *Machine) addPC(t *Term) {
+	m.pc = append(m.pc, t)
+	vs := m.termVars(t)
+	for i := 1; i < len(vs); i++ {
+		m.ufUnion(vs[0], vs[i])
+	}
+}
+
+// termVars returns the variables occurring in t (cached on the term).
+func (m *Machine) termVars(t *Term) []*Term {
+	if t.varsDone {
+		return t.vars
+	}
+	seen := map[int]bool{}
+	var out []*Term
+	stack := []*Term{t}
+	for len(stack) > 0 {
+		x := stack[len(stack)-1]
+		stack = stack[:len(stack)-1]
+		if seen[x.id] {
+			continue
+		}
+		seen[x.id] = true
+		if x.varsDone {
+			for _, v := range x.vars {
+				if !seen[-v.id] {
+					seen[-v.id] = true
+					out = append(out, v)
+				}
+			}
+			continue
+		}
+		if x.Op == "var" {
+			if !seen[-x.id] {
+				seen[-x.id] = true
+				out = append(out, x)
+			}
+			continue
+		}
+		stack = append(stack, x.Args...)
+	}
+	t.vars, t.varsDone = out, true
+	return out
+}
+
+func (m *Machine) ufFind(v *Term) *Term {
+	for {
+		p, ok := m.ufParent[v]
+		if !ok || p == v {
+			return v
+		}
+		if gp, ok := m.ufParent[p]; ok && gp != p {
+			m.ufParent[v] = gp
+		}
+		v = p
+	}
+}
+
+func (m *Machine) ufUnion(a, b *Term) {
+	ra, rb := m.ufFind(a), m.ufFind(b)
+	if ra != rb {
+		m.ufParent[ra] = rb
+	}
+}
+
+// query decides PC ∧ extra. With a valid cached model of the PC only the conjuncts sharing variables
+// (transitively) with extra are sent (independent-constraint slicing); the model returned is a full
+// model of PC ∧ extra obtained by patching the cached one.
+func (m *Machine) query(extra *Term, wantModel bool) (SatResult, map[string]*big.Int) {
+	if extra != nil && extra.IsFalse() {
+		return Unsat, nil
+	}
+	if m.model == nil || extra == nil {
+		r, model := m.solver.CheckSlice(m.pc, extra, wantModel)
+		return r, model
+	}
+	roots := map[*Term]bool{}
+	for _, v := range m.termVars(extra) {
+		roots[m.ufFind(v)] = true
+	}
+	var rel []*Term
+	for _, c := range m.pc {
+		vs := m.termVars(c)
+		if len(vs) > 0 && roots[m.ufFind(vs[0])] {
+			rel = append(rel, c)
+		}
+	}
+	r, sm := m.solver.CheckSlice(rel, extra, wantModel)
+	if r != Sat || !wantModel {
+		return r, nil
+	}
+	full := make(map[string]*big.Int, len(m.model)+len(sm))
+	for k, v := range m.model {
+		full[k] = v
+	}
+	for k, v := range sm {
+		full[k] = v
+	}
+	return r, full
 }
 
 // branch forks on a symbolic condition and returns the side taken on this path.
@@ -337,7 +450,7 @@ func (m *Machine) branchAt(fr *frame, instr ssa.Instruction, cond *Term) bool {
 			panic(pathEnd{kind: "engine", msg: fmt.Sprintf("nondeterministic replay: decision %d is br, recorded %s", m.dpos, d.kind)})
 		}
 		if !d.tested {
-			r, model := m.solver.Check(sideCond(d.chosen), true)
+			r, model := m.query(sideCond(d.chosen), true)
 			if r == Unsat {
 				m.stack = m.stack[:m.dpos]
 				panic(pathEnd{kind: "infeasible"})
@@ -370,7 +483,7 @@ func (m *Machine) branchAt(fr *frame, instr ssa.Instruction, cond *Term) bool {
 				feas[i], known[i] = true, true // PC is satisfiable, the other side is not
 				continue
 			}
-			r, model := m.solver.Check(sideCond(i), true)
+			r, model := m.query(sideCond(i), true)
 			if r == Unknown {
 				m.note("unknown_branch", "branch feasibility unknown; kept")
 				m.pcDoubt = true
@@ -448,43 +561,48 @@ func (m *Machine) concretize(fr *frame, t *Term, what string) int64 {
 			panic(pathEnd{kind: "engine", msg: fmt.Sprintf("nondeterministic replay: decision %d is conc, recorded %s", m.dpos, d.kind)})
 		}
 	} else {
-		m.stack = append(m.stack, decision{kind: kind, chosen: 0, n: -1, tested: false, vals: []int64{}})
-		d = &m.stack[len(m.stack)-1]
-		m.res.Decisions++
-	}
-	if !d.tested {
-		if d.chosen != len(d.vals) {
-			panic("concretize: bad enumeration state")
-		}
-		if len(d.vals) >= m.opts.ConcCap {
-			m.note("conc_cap", fmt.Sprintf("more than %d values for %s", m.opts.ConcCap, what))
-			m.stack = m.stack[:m.dpos]
-			panic(pathEnd{kind: "infeasible"})
-		}
-		// find a value different from all previous ones
+		// enumerate all feasible values now (avoids one re-execution per value)
+		var vals []int64
 		excl := m.pool.Bool(true)
-		for _, v := range d.vals {
+		for {
+			if len(vals) >= m.opts.ConcCap {
+				m.note("conc_cap", fmt.Sprintf("more than %d values for %s at %s; remaining values not explored", m.opts.ConcCap, what, fr.fn))
+				break
+			}
+			var r SatResult
+			var val *big.Int
+			if len(vals) == 0 && m.model != nil {
+				r, val = Sat, m.evalTerm(t)
+			} else {
+				r, val = m.checkValue(excl, t)
+			}
+			if r != Sat {
+				if r == Unknown {
+					m.note("unknown_conc", "concretisation query unknown for "+what)
+				}
+				break
+			}
+			v := canon(int64(val.Uint64()), t.W, true)
+			vals = append(vals, v)
 			excl = m.pool.And(excl, m.pool.Not(m.pool.Eq(t, m.pool.ConstU(uint64(v), t.W))))
 		}
-		var r SatResult
-		var val *big.Int
-		if len(d.vals) == 0 && m.model != nil {
-			r, val = Sat, m.evalTerm(t)
-		} else {
-			r, val = m.solver.CheckValue(excl, t)
-		}
-		if r != Sat {
-			if r == Unknown {
-				m.note("unknown_conc", "concretisation query unknown for "+what)
-			}
-			if len(d.vals) == 0 && r == Unsat {
-				// path condition itself unsatisfiable?
-			}
-			m.stack = m.stack[:m.dpos]
+		if len(vals) == 0 {
 			panic(pathEnd{kind: "infeasible"})
 		}
-		d.vals = append(d.vals, canon(int64(val.Uint64()), t.W, true))
-		d.tested = true
+		m.stack = append(m.stack, decision{kind: kind, chosen: 0, n: len(vals), tested: true, vals: vals})
+		d = &m.stack[len(m.stack)-1]
+		m.res.Decisions++
+		if m.shared != nil {
+			for alt := d.n - 1; alt > 0; alt-- {
+				if !m.shared.hungry() {
+					break
+				}
+				job := m.copyStack()
+				job[len(job)-1] = decision{kind: kind, chosen: alt, n: alt + 1, tested: true, forced: true, vals: append([]int64{}, vals...)}
+				m.shared.push(Job{h: m.hidx, stack: job})
+				d.n = alt
+			}
+		}
 	}
 	v := d.vals[d.chosen]
 	m.dpos++
@@ -492,17 +610,15 @@ func (m *Machine) concretize(fr *frame, t *Term, what string) int64 {
 	return v
 }
 
-// CheckValue: satisfiability of PC ∧ extra together with the model value of t.
-func (s *Solver) CheckValue(extra *Term, t *Term) (SatResult, *big.Int) {
-	// Bind t to a fresh variable so that the generic model extraction returns it.
+// checkValue: satisfiability of PC ∧ extra together with the model value of t.
+func (m *Machine) checkValue(extra *Term, t *Term) (SatResult, *big.Int) {
 	name := fmt.Sprintf("cv!%d", t.id)
-	v := s.pool.Var(name, t.W)
-	bind := s.pool.Eq(v, t)
-	q := bind
+	v := m.pool.Var(name, t.W)
+	q := m.pool.Eq(v, t)
 	if extra != nil {
-		q = s.pool.And(bind, extra)
+		q = m.pool.And(q, extra)
 	}
-	r, model := s.Check(q, true)
+	r, model := m.query(q, true)
 	if r != Sat {
 		return r, nil
 	}
@@ -557,7 +673,7 @@ func (m *Machine) checkAssert(fr *frame, cond Value, id, msg string, pos string)
 		if m.model != nil {
 			m.violation(id, msg, pos, "assert", m.model)
 		}
-		r, model := m.solver.Check(nil, true)
+		r, model := m.query(nil, true)
 		if r != Sat {
 			m.note("unknown_assert", "model for failing path unavailable: "+id)
 			if r == Unsat {
@@ -570,7 +686,7 @@ func (m *Machine) checkAssert(fr *frame, cond Value, id, msg string, pos string)
 			// the cached model of the path condition already falsifies the assertion
 			m.violation(id, msg, pos, "assert", m.model)
 		}
-		r, model := m.solver.Check(m.pool.Not(c), true)
+		r, model := m.query(m.pool.Not(c), true)
 		switch r {
 		case Unsat:
 			m.res.AssertsProved++
@@ -677,7 +793,11 @@ func (m *Machine) resetPath() {
 	m.stubs = map[string]Value{}
 	m.unwindCap = m.opts.Unwind
 	m.lastViolation = nil
-	m.model, m.modelMemo, m.pcDoubt = nil, nil, false
+	m.model, m.modelMemo, m.pcDoubt = map[string]*big.Int{}, nil, false
+	if len(m.stack) > 0 {
+		m.model = nil // replaying a prefix: the model is re-installed at its last decision
+	}
+	m.ufParent = map[*Term]*Term{}
 	m.freshSeq, m.sigSeq, m.keySeq, m.hashSeq = 0, 0, 0, 0
 }
 
@@ -700,7 +820,7 @@ func (m *Machine) runPath(entry *ssa.Function) (end pathEnd) {
 		}
 		m.endModel = nil
 		if end.kind == "panic" {
-			if res, model := m.solver.Check(nil, true); res == Sat {
+			if res, model := m.query(nil, true); res == Sat {
 				m.endModel = modelStrings(model)
 			}
 		}
